@@ -22,7 +22,7 @@ RULE = ("half of the grammars come from the C01 generator (kept when not left re
 ASSUMPTIONS = ["harness FIRST/FOLLOW/predict sets, Earley recogniser and LL(1) parser (vf/gram.py) are the "
                "reference", "grammars <= 4 non-terminals, inputs <= 14 tokens"]
 TIERS = {
-    "quick": {"shards": 4, "cases": 1500, "timeout": 600},
+    "quick": {"shards": 4, "cases": 1500, "timeout": 300},
     "thorough": {"shards": 16, "cases": 12000, "timeout": 3000},
 }
 FLOORS = {"quick": {"distinct_nontrivial": 1500, "ll1_grammars": 500, "nonambiguous_pairs_judged": 10000,
